@@ -148,7 +148,12 @@ def reads(ctx, R="R-C12-frame-aligned-reads", R2="R-C12-bytes-accounted"):
         if cc.is_call(src, "getitem") and cc.is_call(src.args[2], "slice") and src.args[2].args[1] == S.NONE and src.args[2].args[3] == S.NONE:
             items = S.truediv(src.args[2].args[2], S.sym("sampsize"))
         else:
-            items = S.truediv(S.call("len", src), S.sym("sampsize"))
+            # the whole read is converted: numpy refuses a buffer whose size is not a multiple of the item size
+            ctx.bad(R2, f, fst, "np.frombuffer converts the whole read without `count=` (and without trimming it): a data section that ends in the "
+                    "middle of a sample - a truncated multi-byte PCM file - raises ValueError('buffer size must be a multiple of element size') "
+                    "instead of the short-read warning with the whole frames that are present",
+                    "the bytes converted are limited to whole frames")
+            return
     # express both sides over the number of bytes actually read
     read_expr = ev.eval_at(rst, rc)
     mapping = {S.call("len", read_expr): raw_len}
